@@ -280,8 +280,10 @@ func checkTool(files []string) (ds []hx.Discrepancy) {
 		}
 		// the two recorded findings are told apart by what differs: only directive definition blocks, only the roots line
 		dirsOnly := hasDirDefs && stripBlocks(want, "directive ") == stripBlocks(got, "directive ")
-		rootsOnly := extImplied && stripBlocks(want, "roots ") == stripBlocks(got, "roots ")
-		both := hasDirDefs && extImplied && stripBlocks(stripBlocks(want, "directive "), "roots ") == stripBlocks(stripBlocks(got, "directive "), "roots ")
+		// (what the extension of an implied schema brings: roots and directive uses on the schema)
+		stripImplied := func(x string) string { return stripBlocks(stripBlocks(x, "roots "), "schema dirs=") }
+		rootsOnly := extImplied && stripImplied(want) == stripImplied(got)
+		both := hasDirDefs && extImplied && stripImplied(stripBlocks(want, "directive ")) == stripImplied(stripBlocks(got, "directive "))
 		switch {
 		case dirsOnly:
 			add("tool-output-differs", "KF-C15-ggqlgen-directive-definitions", "ggqlgen %s output drops directive definitions: %s\n--- input\n%s\n--- output\n%s", which, firstDiff(want, got), in, outText)
